@@ -269,6 +269,32 @@ class Fn:
     def local_ty_s(self, l):
         return self.local_ty(l)["s"]
 
+    def place_ty(self, pl):
+        """type-table entry of a place (through derefs, fields, indexing), or None when it cannot be told"""
+        types = self.facts.types
+        ti = self.locals[pl["local"]]["ty"]
+        for e in pl["proj"]:
+            if ti is None:
+                return None
+            t = types[ti]
+            k = e["k"]
+            if k == "deref":
+                if t["k"] in ("ref", "refmut", "ptr"):
+                    ti = t.get("inner")
+                elif t["k"] == "adt" and t.get("args"):
+                    ti = t["args"][0]
+                else:
+                    return None
+            elif k == "field":
+                ti = e.get("ty")
+            elif k in ("index", "constindex"):
+                ti = t.get("inner") if t["k"] in ("array", "slice") else None
+            elif k in ("downcast", "subslice"):
+                pass
+            else:
+                return None
+        return types[ti] if ti is not None else None
+
     def arg_name(self, i):
         return self.names.get(i, "_%d" % i)
 
